@@ -159,6 +159,23 @@ def numeric_probes(seed, n):
         if abs(decimal_to_db_loss(db_loss_to_decimal(d)) - d) > 1e-6:
             out.append(("conversion", "decimal_to_db_loss(db_loss_to_decimal(%r)) != d" % d, {"call": "conversion"}))
             break
+    # states built from numpy integers are the same values as those built from ints: equal, and then equal hashes / same dictionary key
+    import lightworks as lw
+    for occ in ([1, 0], [0, 2, 1], [3], [1, 1, 0, 2]):
+        a_, b_ = lw.State(occ), lw.State([np.int64(x) for x in occ])
+        c_ = lw.State(list(np.array(occ)))
+        for other, how in ((b_, "numpy int64 entries"), (c_, "entries taken from a numpy array")):
+            if a_ == other and (hash(a_) != hash(other) or len({a_: 1, other: 2}) != 1):
+                out.append(("hash", "State(%s) and the same state built from %s compare equal but hash differently" % (occ, how), {"call": "State.__hash__"}))
+            if a_ != other:
+                out.append(("equality", "State(%s) differs from the same state built from %s" % (occ, how), {"call": "State.__eq__"}))
+    # what random_unitary / random_permutation hand out is the caller's: changing it must not reach a later call with the same seed
+    for fn, nm in ((random_unitary, "random_unitary"), (random_permutation, "random_permutation")):
+        first = fn(3, seed=12345)
+        keep = first.copy()
+        first[:] = 0
+        if np.abs(fn(3, seed=12345) - keep).max() > 0:
+            out.append(("random", "%s(3, seed=12345) differs after the array returned by an earlier call was modified" % nm, {"call": nm}))
     edge = [(2, 0), (1, 0), (3, 0), (1, 1), (2, 1), (5, 2 ** 32 - 1)]        # seed 0, dimension 1, the largest 32-bit seed
     for k in range(max(4, n // 200) + len(edge)):
         N = rng.randint(2, 8)
